@@ -47,6 +47,59 @@ pub fn encode(v: &RV, s: &RS, defs: &Defs, out: &mut Vec<u8>) {
 
 pub type LeafTrace = Option<Vec<(usize, &'static str)>>;
 
+thread_local! {
+    /// When > 0, arrays and maps are written as several blocks of this many items (every second
+    /// block in the form with a negative count followed by the block's byte size) - a valid
+    /// encoding that other implementations produce and this crate's `Value` encoder never does.
+    static BLOCK_SPLIT: std::cell::Cell<usize> = const { std::cell::Cell::new(0) };
+}
+
+/// Run `f` with arrays and maps encoded in blocks of `k` items (0 = one block).
+pub fn with_block_split<T>(k: usize, f: impl FnOnce() -> T) -> T {
+    let prev = BLOCK_SPLIT.with(|c| c.replace(k));
+    let r = f();
+    BLOCK_SPLIT.with(|c| c.set(prev));
+    r
+}
+
+fn put_blocks(n: usize, out: &mut Vec<u8>, mut item: impl FnMut(usize, &mut Vec<u8>)) {
+    let k = BLOCK_SPLIT.with(|c| c.get());
+    if n == 0 {
+        out.push(0);
+        return;
+    }
+    if k == 0 || k >= n {
+        put_long(out, n as i64);
+        for i in 0..n {
+            item(i, out);
+        }
+        out.push(0);
+        return;
+    }
+    let mut i = 0;
+    let mut blk = 0;
+    while i < n {
+        let m = k.min(n - i);
+        if blk % 2 == 1 {
+            let mut tmp = vec![];
+            for j in i..i + m {
+                item(j, &mut tmp);
+            }
+            put_long(out, -(m as i64));
+            put_long(out, tmp.len() as i64);
+            out.extend_from_slice(&tmp);
+        } else {
+            put_long(out, m as i64);
+            for j in i..i + m {
+                item(j, out);
+            }
+        }
+        i += m;
+        blk += 1;
+    }
+    out.push(0);
+}
+
 /// Encoder that optionally records (offset, schema kind) for every position where a node starts.
 pub fn encode_t(v: &RV, s: &RS, defs: &Defs, out: &mut Vec<u8>, tr: &mut LeafTrace) {
     if let Some(t) = tr {
@@ -99,7 +152,7 @@ pub fn encode_t(v: &RV, s: &RS, defs: &Defs, out: &mut Vec<u8>, tr: &mut LeafTra
                 encode_t(v, t, defs, out, tr);
             }
         }
-        (RS::Array(t), RV::Array(vs)) => {
+        (RS::Array(t), RV::Array(vs)) if BLOCK_SPLIT.with(|c| c.get()) == 0 => {
             if !vs.is_empty() {
                 put_long(out, vs.len() as i64);
                 for v in vs {
@@ -108,7 +161,7 @@ pub fn encode_t(v: &RV, s: &RS, defs: &Defs, out: &mut Vec<u8>, tr: &mut LeafTra
             }
             out.push(0);
         }
-        (RS::Map(t), RV::Map(es)) => {
+        (RS::Map(t), RV::Map(es)) if BLOCK_SPLIT.with(|c| c.get()) == 0 => {
             if !es.is_empty() {
                 put_long(out, es.len() as i64);
                 for (k, v) in es {
@@ -118,6 +171,18 @@ pub fn encode_t(v: &RV, s: &RS, defs: &Defs, out: &mut Vec<u8>, tr: &mut LeafTra
                 }
             }
             out.push(0);
+        }
+        (RS::Array(t), RV::Array(vs)) => {
+            // (no node trace inside split collections: offsets inside a negative-count block would be
+            // relative to that block)
+            put_blocks(vs.len(), out, |i, o| encode_t(&vs[i], t, defs, o, &mut None));
+        }
+        (RS::Map(t), RV::Map(es)) => {
+            put_blocks(es.len(), out, |i, o| {
+                put_long(o, es[i].0.len() as i64);
+                o.extend_from_slice(es[i].0.as_bytes());
+                encode_t(&es[i].1, t, defs, o, &mut None);
+            });
         }
         (RS::Union(bs), RV::Union(i, inner)) => {
             put_long(out, *i as i64);
